@@ -168,6 +168,9 @@ def custom_strategy(draw, ctx):
     }
 
 
+_CUSTOM_PAD = 12 + 11 + 6 + 6 + 1  # samples + between + extra + before/after, rounded up
+
+
 def custom_body(ctx, case):
     import fdtdx
     import jax.numpy as jnp
@@ -192,11 +195,13 @@ def custom_body(ctx, case):
         q.append(("before", start - (j / 64.0) * sp))
     for j in case["after"]:
         q.append(("after", start + (n + j / 64.0) * sp))
-    tj, t64 = _times(ctx, [t for _, t in q])
+    nq = len(q)
+    # fixed array length (one XLA shape for all cases); the padding repeats the first sample time
+    tj, t64 = _times(ctx, [t for _, t in q] + [start] * (_CUSTOM_PAD - nq))
     # period / phase_shift are ignored by this profile; pass what a source would pass
     got = np.asarray(prof.get_amplitude(time=tj, period=1e-15, phase_shift=0.3), dtype=np.float64)
-    ctx.check(got.shape == (len(q),), "amplitude shape differs from the time shape", observed=list(got.shape),
-              expected=[len(q)])
+    ctx.check(got.shape == (_CUSTOM_PAD,), "amplitude shape differs from the time shape", observed=list(got.shape),
+              expected=[_CUSTOM_PAD])
 
     fs, fst, fsig = Fraction(sp), Fraction(start), [Fraction(s) for s in sig]
     scale = max(1.0, max(abs(s) for s in sig), abs(case["outside"]))
@@ -219,7 +224,9 @@ def custom_body(ctx, case):
             exp = float((1 - th) * fsig[k] + th * fsig[k + 1])
             what = f"not linear between samples {k} and {k + 1} (fraction {float(th):.4f})"
         else:
-            if not (idx <= -guard or idx >= n):
+            # exactly one spacing after the last sample (idx == n) is only queried with dyadic inputs, where the
+            # float arithmetic is exact; with arbitrary floats keep 1/128 spacing away from that edge
+            if not (idx <= -guard or idx >= n + guard or (case["dyadic"] and idx == n)):
                 continue
             exp = case["outside"]
             what = f"outside_value not returned {kind} the sampled window (position {float(idx):.4f} of {n} samples)"
@@ -354,15 +361,15 @@ def pulse_body(ctx, case):
 
 
 SUBS = [
-    Sub(name="wave", body=wave_body, strategy=wave_strategy, quick=1500, thorough=60000, lanes=("f64",),
+    Sub(name="wave", body=wave_body, strategy=wave_strategy, quick=2000, thorough=200000, lanes=("f64",),
         rule="one of period/wavelength/frequency given over 12 decades; the two identities + the given value"),
-    Sub(name="custom", body=custom_body, strategy=lambda ctx: custom_strategy(ctx), quick=500, thorough=40000,
+    Sub(name="custom", body=custom_body, strategy=lambda ctx: custom_strategy(ctx), quick=800, thorough=80000,
         lanes=("f64", "f32"), f32_fraction=0.25,
         rule="sampled signal queried at samples, between neighbours, before and after the window; Fraction oracle"),
-    Sub(name="cw", body=cw_body, strategy=lambda ctx: cw_strategy(ctx), quick=500, thorough=40000,
+    Sub(name="cw", body=cw_body, strategy=lambda ctx: cw_strategy(ctx), quick=800, thorough=80000,
         lanes=("f64", "f32"), f32_fraction=0.25,
         rule="|a| <= ramp <= 1 at drawn times, |a| = ramp at carrier crests"),
-    Sub(name="pulse", body=pulse_body, strategy=lambda ctx: pulse_strategy(ctx), quick=500, thorough=40000,
+    Sub(name="pulse", body=pulse_body, strategy=lambda ctx: pulse_strategy(ctx), quick=800, thorough=80000,
         lanes=("f64", "f32"), f32_fraction=0.25,
         rule="|a| <= 1 at drawn times and at the carrier crests next to the envelope centre"),
 ]
